@@ -524,14 +524,28 @@ def version_counter(ctx, r):
         for w in ctx.world.field_writes:
             if w.field != f:
                 continue
-            sl = Slicer(ctx.world, w.body)
-            lv = sl.leaves_of_operand(w.rv["op"]) if w.rv["k"] == "use" else {("unknown", w.rv["k"], ())}
+            # judged with effect-free private helpers inlined ("the version after v" may be a small function); whatever
+            # has effects of its own (the replayer, the allocator) stays a call
+            from .. import flat as flatmod
+            pure = lambda tgt: not ctx.may.all_events(tgt.path) and not ctx.locks.acquires(tgt.path)
+
+            def policy(site, tgt, how):
+                return how == "direct" and not tgt.reachable and not tgt.is_closure and pure(tgt)
+            V = flatmod.flatten(prog, w.body, policy, 2)
+            occ = [(vbb, V.blocks[vbb]["stmts"][w.idx]) for vbb in V.normal_blocks()
+                   if V.origin_key(vbb) == (w.body.path, w.bb) and w.idx < len(V.blocks[vbb]["stmts"])]
+            sl = Slicer(ctx.world, V)
+            wrv = occ[0][1]["rv"] if occ and occ[0][1]["k"] == "assign" else w.rv
+            if not occ:
+                V = w.body
+                sl = Slicer(ctx.world, V)
+            lv = sl.leaves_of_operand(wrv["op"]) if wrv["k"] == "use" else {("unknown", wrv["k"], ())}
             ok = True
             desc = []
             incremented_in_closure = False
             for l in lv:
                 if l[0] == "call" and l[1].endswith("saturating_add"):
-                    t = w.body.blocks[l[2]]["term"]
+                    t = V.blocks[l[2]]["term"]
                     base = sl.leaves_of_operand(t["args"][0])
                     inc = sl.leaves_of_operand(t["args"][1])
                     inc_ok = all(x[0] == "const" and x[1] == 1 for x in inc)
@@ -540,7 +554,7 @@ def version_counter(ctx, r):
                     ok = ok and inc_ok and base_ok
                 elif l[0] == "const":
                     desc.append("const %s" % (l[1],))
-                elif l[0] == "call" and l[1].endswith("Option::map_or") and _map_or_increments(ctx, w.body, sl, l):
+                elif l[0] == "call" and l[1].endswith("Option::map_or") and _map_or_increments(ctx, V, sl, l):
                     # `highest.map_or(FIRST, |v| v.saturating_add(1))`
                     incremented_in_closure = True
                     desc.append("map_or(first version, |v| saturating_add(v, 1))")
